@@ -25,7 +25,9 @@ def gen_tree(rng, depth, names, url_names=False, p_readme=0.4, servings_pool=(No
     d = dict(name=rng.choice(pool) + str(counter[0]), readme=None, recipes=[], subdirs=[], assets=[])
     if rng.random() < p_readme:
         d["readme"] = dict(file=rng.choice(["README.md", "index.md", "readme.md", "INDEX.md"]),
-                           title=rng.choice(["Cat", "Ünï", "A & B", "Zed", "cat", "Lunch", "hot dish", "Meal plan week", "1 pot"]) + rng.choice([" " + str(rng.randint(0, 9)), " " + str(rng.randint(0, 9)), ""]),
+                           # (a readme is not a recipe: a title that ends like a serving phrase is just its title, whatever the count)
+                           title=rng.choice(["Cat", "Ünï", "A & B", "Zed", "cat", "Lunch", "hot dish", "Meal plan week", "1 pot", "Party food for", "Buffet serves", "Snacks to serve"])
+                           + rng.choice([" " + str(rng.randint(0, 9)), " " + str(rng.randint(0, 9)), "", " 20", " 12"]),
                            links=[])
     for i in range(rng.randint(0, 3)):
         counter[0] += 1
